@@ -144,6 +144,7 @@ theorem quiet_prim (hashOf : Name → String) (s : State) (p : Prim) (h : QuietG
     | truncPart n sz => simp only [applyPrim, applyDisk]; split <;> exact hx
     | cmpCommit n now => simp only [applyPrim, applyDisk]; split <;> exact hx
     | renPartFull n => simp only [applyPrim, applyDisk]; split <;> exact hx
+    | rmCmpIf n h0 => simp only [applyPrim, applyDisk]; split <;> (try split) <;> exact hx
     | _ => exact hx
   vq := by
     intro q hq
@@ -644,8 +645,8 @@ theorem renWaitFinal_rel (hashOf : Name → String) (s : State) (n : Name) (t : 
     · exact h
 
 /-- what `finalize` does after the cache update -/
-def finalizeRest (s : State) (n : Name) : List Prim :=
-  [Prim.rmCmp n, Prim.waitTake n] ++
+def finalizeRest (s : State) (n : Name) (h : String) : List Prim :=
+  [Prim.rmCmpIf n h, Prim.waitTake n] ++
     (s.mem.wait.filter (fun w => w.1 == n)).map (fun w => Prim.fqPush w.2.1 w.2.2) ++
     [Prim.lockDel n]
 
@@ -656,7 +657,7 @@ theorem finalizeEffects_eq (s : State) (n : Name) (e : Entry) (now : Int) (i : N
       [Prim.lockAdd n, Prim.timerDel n] ++ [Prim.logAppend (finRec n e now)] ++
       [Prim.renWaitFinal n (targetOf n e.renamed)] ++
       toCache s.mem n { e with logged := some now } .finalized now ++
-      finalizeRest s n := by
+      finalizeRest s n e.hash := by
   unfold finalizeEffects finalizeRest
   have hc : ¬ (stateOf s.mem n ≠ some .validated ∨ (s.mem.cache n).map (·.hash) ≠ some e.hash) := by
     simp [hv, hh]
@@ -682,7 +683,7 @@ theorem finalize_rel (hashOf : Name → String) (s0 s : State) (n : Name) (e : E
     (run (run (run (run s0 [Prim.lockAdd n, Prim.timerDel n]) [Prim.logAppend (finRec n e now)])
       [Prim.renWaitFinal n (targetOf n e.renamed)])
       (toCache s.mem n { e with logged := some now } .finalized now))
-    (finalizeRest s n) (by simp [finalizeRest, quietB, List.all_map])
+    (finalizeRest s n e.hash) (by simp [finalizeRest, quietB, List.all_map])
   exact (Rel.quiet_left h1 ((h2.trans h3).trans h4)).quiet_right h5
 
 theorem finh_once {hashOf : Name → String} {s : State} (hi : OnceInv hashOf s)
